@@ -33,12 +33,13 @@ Theorem C19_own_blobs_kept : forall net limit d b, hashes_unique d -> In b (blob
 Proof. exact own_kept. Qed.
 Print Assumptions C19_own_blobs_kept.
 
-(* Over every history of passes (any class, any limit), clean() calls, status reads, blobs appearing and blobs the
+(* Over every history of passes (any class, any limit), clean() calls, status reads, blobs appearing (add_blobs with any
+   is_mine in the tuple), restarts (BlobManager.setup) with blob files hidden or restored in between, and blobs the
    user removes himself through the API: a hash that is the user's own (and that he does not remove himself) is in
-   no deletion list, stays own, and keeps its file. *)
+   no deletion list, stays own, and keeps its file unless somebody moved that file away. *)
 Theorem C19_never_own_history : forall ops d h, hashes_unique d -> In h (own_hashes d) -> ~ In h (user_deleted ops) ->
   (forall dl, In dl (fst (run ops d)) -> ~ In h dl) /\ In h (own_hashes (snd (run ops d))) /\
-  (In h (disk d) -> In h (disk (snd (run ops d)))).
+  (In h (disk d) -> ~ In h (hidden ops) -> In h (disk (snd (run ops d)))).
 Proof. exact history_never_own. Qed.
 Print Assumptions C19_never_own_history.
 
